@@ -12,6 +12,11 @@ CHECKS = {
         technique="AST dataflow: domain-guard, exhaustive-dispatch and inverse-pairing rules over Point.coords/distance; call-graph unbound-name scan",
         text="Decides structural necessary conditions only: every arccosh on the distance result path is clamped into its domain (so d(x,x) cannot be NaN), every Model value has a forwarding arm in the coords dispatch, setters and getters use name-inverse chart maps around the same delegate, and no unbound name is reachable. Not the numerical round-trip or metric laws.",
         ref="DESIGN.md §4 C01"),
+    "C02": dict(
+        engine="BLK1 + FORM1 + HOM1 + INV3 + NONNEG1 + ORI1 + PINV1 + RO + T1 + T1e + U1",
+        technique="form-threading and who-may-invert lints over the Gram-Schmidt completion and the isometry constructors; block-index rule on the elliptic embedding; homogeneity types on the constructed matrices; call-graph unbound-name scan",
+        text="Narrow (claimed in the eighth round). Decides only structural necessary conditions of form preservation: every helper of the indefinite Gram-Schmidt completion passes ITS form parameter to every form-taking helper it calls and hyperbolic.py calls find_isometry / indefinite_orthogonalize / normalize with the Minkowski form (FORM1, 21 call sites); Isometry.elliptic writes the orthogonal block at an index range that excludes the time row and column and standard_loxodromic is X diag(t, 1/t, 1..) X^-1 with one X (BLK1); every inv() of the Transformation family is a genuine matrix inverse, never a pseudo-inverse or a structural shortcut (INV3, PINV1), and composition multiplies the stored row matrices in the documented order (RO); the orientation fix negates one row (ORI1); the matrices returned by origin_to / isometry_to / reflection_across / timelike_to / spacelike_to scale by signs only when the representative of the input is rescaled (HOM1); the constructors are reachable without unbound names and accept Python scalars (U1, T1). Not decided: M^T J M = J for the computed matrices, distances, the SL(2,R) -> SO(2,1) identity, the diagonalised Coxeter form.",
+        ref="DESIGN.md §4 C02, §0.8"),
     "C03": dict(
         engine="C2 + P1 + RO + S1 + SH3 + U1 + W1",
         technique="AST def-use slot tracking in Transformation.apply, effect analysis, MRO-resolved sibling agreement of wrap/unwrap functions",
@@ -100,7 +105,6 @@ CHECKS = {
 }
 
 NA = {
-    "C02": "Form preservation of computed matrices is a numerical identity; no code-shape clause is a necessary condition a realistic change breaks (DESIGN §4 C02).",
     "C07": "Correctness of the Brink-Howlett small-root automaton needs a word-problem oracle over an infinite language; no clause is visible in code shape (DESIGN §4 C07).",
 }
 
